@@ -249,8 +249,8 @@ class StoreRun:
             from .faultfs import FaultFS
 
             _, ki, cls = op
-            if self.budget or self.kind != "fs":
-                return None  # with a cache the failed write leaves the value cached: not this check's subject
+            if self.kind != "fs":
+                return None
             sym, arg = self.keys[ki]
             self.tick += 1
             self.faulted = True
